@@ -248,12 +248,13 @@ func (this *BtcTxParam) Deserialization(source *common.ZeroCopySource) error {
 	if eof {
 		return fmt.Errorf("BtcFeeRateParam deserialize length of signature array error")
 	}
-	sigs := make([][]byte, l)
+	sigs := make([][]byte, 0)
 	for i := uint64(0); i < l; i++ {
-		sigs[i], eof = source.NextVarBytes()
+		sig, eof := source.NextVarBytes()
 		if eof {
 			return fmt.Errorf("BtcFeeRateParam deserialize no.%d signature error", i+1)
 		}
+		sigs = append(sigs, sig)
 	}
 	this.Sigs = sigs
 	detial := &BtcTxParamDetial{}
